@@ -562,3 +562,93 @@ PLANS["C09"] = generic(
     "source containing a backslash or non-ASCII character; distinct by source text.",
     n_quick=240_000, n_thorough=12_000_000, min_evaluations=300_000, needs_ref=False,
 )
+
+
+PLANS["C12"] = generic(
+    "c12",
+    rule="(a) failing expressions built from 22 failing cores (unknown function, wrong arity, wrong type, bad expression-reference result at element "
+    "k, by-functions that fail AFTER evaluating an expression reference that itself contains calls, step-0 slices) x 14 wrappers (pipe, multi-select "
+    "list/hash, projection, outer call, expression reference, !, ||, &&, comparison, filter, parentheses) x 10 prefixes containing multi-byte and "
+    "astral characters and newlines, with random whitespace (incl. \\n, \\r\\n, \\t) between tokens; the reference evaluator predicts error class and "
+    "the failing call (offset of its '(' from the reference parser) or the slice's bracket range; (b) syntax errors from one-token mutants, "
+    "truncations and character soup of multi-line multi-byte expressions; (c) non-finite sum/avg. For EVERY error: offset within the expression on "
+    "a char boundary, line/column recomputed from (expression, offset), Display compared with an independent renderer, class prefix. Hook "
+    "monitor: at every JmespathError::from_ctx the shadow call stack's innermost call offset must equal ctx.offset. Non-trivial = error position "
+    "preceded by a multi-byte character or a newline; distinct by (source, offset).",
+    n_quick=320_000, n_thorough=16_000_000, min_evaluations=200_000,
+)
+
+
+PLANS["C11"] = generic(
+    "c11",
+    rule="sub-expressions L, R (value-guided random trees incl. projections, pipes, literals and failing calls) and a predicate P are combined "
+    "into 15 compound forms; using ONLY the crate, each compound's search is compared with what its parts give separately: '(L) | (R)' vs R on "
+    "L's result; list-wildcard / slice / flatten / object-wildcard projections with an arbitrary right-hand side '(L)[*].[R]' vs [[R(e)]...] over "
+    "the elements the bare projection yields, nulls dropped; field/index chains; '(L)[?P]' vs elements with truthy P(e); multi-select list/hash vs "
+    "tuple/record; !, &&, || vs truth-table combination returning operands; comparisons vs comparing the two results; f(L, R) vs f(@[0], @[1]) on "
+    "[L(d), R(d)]. A failing part must fail the compound (same class) unless short-circuiting makes it unreachable. Non-trivial = L(d) non-empty / "
+    "non-null and R not the identity; distinct by (compound text, document).",
+    n_quick=100_000, n_thorough=6_000_000, min_evaluations=300_000, needs_ref=False,
+    assumptions=["truthiness of a predicate result is decided by the specification's definition in the harness"],
+)
+
+
+def _fnv(s):
+    h = 0xCBF29CE484222325
+    for b in s.encode("utf-8"):
+        h ^= b
+        h = (h * 0x100000001B3) & 0xFFFFFFFFFFFFFFFF
+    return h
+
+
+def c13_post(pid, tier, seed, rundir, staged, merged, extra_cov):
+    """Cross-process ground truth: the single-shot outcome table of every pool is
+    recomputed in a separate fresh process, and sampled pairs each in their own
+    process that does nothing else."""
+    tables = {k.split("/", 1)[1]: v for k, v in merged["extra"].items() if k.startswith("truth_table/")}
+    fresh_tables = 0
+    fresh_pairs = 0
+    for pool, table in tables.items():
+        r = subprocess.run([staged["chk"], "c13truth", "--pool", pool], capture_output=True, text=True, env=o.ENV)
+        if r.returncode != 0:
+            merged["harness_errors"].append("c13truth failed: %s" % r.stderr[-300:])
+            continue
+        t2 = json.loads(r.stdout.splitlines()[-1])["table"]
+        fresh_tables += 1
+        if t2 != table:
+            diffs = [(i, j) for i in range(len(table)) for j in range(len(table[i])) if table[i][j] != t2[i][j]][:3]
+            merged["violations"].append({"signature": "C13/outcome-differs-between-processes", "witness": {"pool": pool, "pairs(e,d)": diffs}})
+            merged["violations_total"] += 1
+        npairs = 6 if tier == "quick" else 60
+        for k in range(npairs):
+            e = (k * 7 + int(pool)) % len(table)
+            d = (k * 11 + 3) % len(table[0])
+            r = subprocess.run([staged["chk"], "c13truth", "--pool", pool, "--e", str(e), "--d", str(d)], capture_output=True, text=True, env=o.ENV)
+            if r.returncode != 0:
+                merged["harness_errors"].append("c13truth pair failed: %s" % r.stderr[-300:])
+                continue
+            out = json.loads(r.stdout.splitlines()[-1])["outcome"]
+            fresh_pairs += 1
+            merged["evaluations"] += 1
+            if _fnv(out) != table[e][d]:
+                merged["violations"].append({"signature": "C13/outcome-differs-from-fresh-process", "witness": {"pool": pool, "e": e, "d": d, "fresh_process_outcome": out[:300]}})
+                merged["violations_total"] += 1
+    merged["extra"] = {k: v for k, v in merged["extra"].items() if not k.startswith("truth_table/")}
+    extra_cov["fresh_process_truth_tables"] = fresh_tables
+    extra_cov["fresh_single_pair_processes"] = fresh_pairs
+    if fresh_tables == 0:
+        merged["harness_errors"].append("no fresh-process ground truth was computed")
+
+
+PLANS["C13"] = generic(
+    "c13",
+    rule="histories of 2000 operations (compile on the default or a custom runtime / clone / search / drop, <=60 live handles) over a pool of 40 "
+    "expression texts (14 that fail midway: in element k of a projection, in a by-function after j expression references, unknown function, "
+    "step-0 slice; 12 plain; 14 generated) and 25 documents — few keys, many revisits. Every search outcome (value, or error class+offset+line+"
+    "column+reason) must equal the single-shot outcome of that (expression, document) pair (fresh compile, one search); the single-shot table is "
+    "recomputed in a separate fresh process and sampled pairs each in their own process; as_ast() fingerprints never change; the shared input "
+    "value prints the same before and after every search. Evidence only: whether interpret step counts per pair stayed constant. Non-trivial = a "
+    "search on a re-used/cloned handle or directly after a failing search of the same expression; distinct by (pool, expression, document, "
+    "predecessor outcome).",
+    n_quick=320, n_thorough=24_000, min_evaluations=300_000, needs_ref=False, post=c13_post,
+)
